@@ -242,3 +242,42 @@ func isErrTest(ft flow.Fact) bool {
 	}
 	return bo.X.Type().String() == "error"
 }
+
+// natom is a path atom in normal form: it HOLDS (the polarity is folded into the operator), a bare truth test
+// `if (x)` is x != 0, so that `x == 0` / `!x`, `a >= b` / `!(a < b)` / `b <= a` are one fact however they are spelled.
+type natom struct {
+	Op     string
+	L, R   string
+	LC, RC *int64
+	NAt    int // index of the atom in the path (for "established before this event" tests)
+}
+
+func normAtoms(atoms []cexec.Atom) []natom {
+	neg := map[string]string{"==": "!=", "!=": "==", "<": ">=", ">=": "<", ">": "<=", "<=": ">"}
+	var out []natom
+	for i, a := range atoms {
+		n := natom{Op: a.Op, L: a.L, R: a.R, LC: a.LC, RC: a.RC, NAt: i}
+		if a.Op == "nz" {
+			zero := int64(0)
+			n.Op, n.R, n.RC = "!=", "0", &zero
+		}
+		if !a.Holds {
+			o, ok := neg[n.Op]
+			if !ok {
+				continue
+			}
+			n.Op = o
+		}
+		out = append(out, n)
+	}
+	return out
+}
+
+// rel: does the atom establish `l op r` for operands accepted by isL/isR, in either orientation?
+func (n natom) rel(op string, isL, isR func(s string, k *int64) bool) bool {
+	mirror := map[string]string{"==": "==", "!=": "!=", "<": ">", ">": "<", "<=": ">=", ">=": "<="}
+	if n.Op == op && isL(n.L, n.LC) && isR(n.R, n.RC) {
+		return true
+	}
+	return mirror[n.Op] == op && isL(n.R, n.RC) && isR(n.L, n.LC)
+}
